@@ -356,33 +356,66 @@ def d2(ctx, rep):
     rep.rule('D2.range', 'check_marginal raises ValueError exactly when min(u) < 0 or max(u) > 1')
     fn = prog.method(BIV, 'check_marginal', inherited=False)
     up = fn.params[1]
-    hit = None
-    for n in walk_no_nested(fn.node):
-        if isinstance(n, ast.If) and raises(n.body, ('ValueError',)):
-            hit = n
-            break
-    if hit is None:
+    # the condition under which a ValueError leaves check_marginal, as a formula over canonical comparison atoms
+    from ..boolcond import Conds, atoms_of, equivalent, f_and, f_not, f_or, implies, satisfiable, show
+    cd = Conds(prog, fn)
+    normal, rs, _rets = cd.exits()
+    verr = [c for st_, c in rs if raises([st_], ('ValueError',))]
+    if not verr:
         rep.bad('D2.range', fn, fn.node.name, 'no range check raising ValueError', construct='range guard')
         return
-    t = hit.test
-    parts = t.values if isinstance(t, ast.BoolOp) and isinstance(t.op, ast.Or) else [t]
-    if isinstance(t, ast.BoolOp) and isinstance(t.op, ast.And) and all(_norm_cmp(p) is not None for p in t.values):
-        rep.bad('D2.range', fn, t, 'the two range conditions are joined by `and`: a column that violates only one bound is accepted')
-        return
-    norm = {_norm_cmp(p) for p in parts}
-    want = {('min', up, 'lt', 0), ('max', up, 'gt', 1)}
-    want2 = {('min', up, 'lt', 0.0), ('max', up, 'gt', 1.0)}
-    if None in norm:
-        rep.undecided('D2.range', fn, t, 'form of the range test not recognised')
+    raise_cond = f_or(*verr)
+    keys = set(atoms_of(raise_cond)) | set(atoms_of(normal))
+
+    def num(txt):
+        try:
+            return float(txt)
+        except ValueError:
+            return None
+
+    def extremum(txt):
+        t = txt.replace('np.', '').replace(' ', '')
+        for k in ('min', 'max'):
+            if t in (f'{k}({up})', f'{up}.{k}()', f'a{k}({up})', f'nan{k}({up})'):
+                return k
+        return None
+    # atoms of the form lt[a|b]: a < b
+    below0 = above1 = None
+    other = []
+    for k in keys:
+        if k.startswith('lt['):
+            a_, b_ = k[3:-1].split('|', 1)
+            if extremum(a_) == 'min' and num(b_) == 0.0:
+                below0 = ('atom', k)          # min(u) < 0
+                continue
+            if extremum(b_) == 'max' and num(a_) == 1.0:
+                above1 = ('atom', k)          # 1 < max(u)
+                continue
+        other.append(k)
+    anchor = next((st_ for st_, c in rs if raises([st_], ('ValueError',))), fn.node.name)
+    if below0 is None or above1 is None:
+        related = [k for k in other if k.startswith('lt[') and any(extremum(x) for x in k[3:-1].split('|', 1))
+                   and any(num(x) is not None for x in k[3:-1].split('|', 1))]
+        if related:
+            missing = 'values below 0 and values above 1' if (below0 is None and above1 is None) else ('values below 0' if below0 is None else 'values above 1')
+            # one bound is tested in the canonical form; what stands in for the other is a different comparison
+            rep.bad('D2.range', fn, anchor, f'the range test does not refuse {missing}: the comparisons are {sorted(k for k in keys if up in k)}', construct='range test')
+        else:
+            rep.undecided('D2.range', fn, anchor, f'form of the range test not recognised (comparisons: {sorted(keys)[:4]})', construct='range test')
     else:
-        rep.check('D2.range', fn, t, norm == want or norm == want2, 'min(u) < 0 or max(u) > 1',
-                  f'the range test is {sorted(map(str, norm))}: values outside [0,1] pass (or valid ones are refused)')
-    # the guard is the first thing that can return / it dominates the normal exit
-    cfg = CFG(fn.node)
-    dom = cfg.dominators(exceptional=False)
-    n = cfg.node_of(hit)
-    rep.check('D2.range', fn, hit, n is not None and n.id in dom.get(cfg.exit.id, ()), 'the range test is on every path',
-              'check_marginal can return without testing the range', construct='range guard on every path')
+        want = f_or(below0, above1)
+        # restricted to the two atoms: ValueError is raised exactly when one of them holds (other atoms, e.g. the KS test, only warn)
+        rest = [k for k in atoms_of(raise_cond) if ('atom', k) not in (below0, above1)]
+        ok = implies(want, raise_cond) is not False and implies(raise_cond, want) is not False if not rest else (implies(want, raise_cond) is True)
+        accepts_bad = satisfiable(f_and(normal, want))
+        if accepts_bad:
+            rep.bad('D2.range', fn, anchor, f'check_marginal can return normally although min(u) < 0 or max(u) > 1 (raise condition: {show(raise_cond)[:120]}): '
+                    'values outside [0,1] pass', construct='range test')
+        elif not rest and not equivalent(raise_cond, want):
+            rep.bad('D2.range', fn, anchor, f'ValueError is raised under `{show(raise_cond)[:120]}`, not exactly when min(u) < 0 or max(u) > 1: valid columns are refused',
+                    construct='range test')
+        else:
+            rep.ok('D2.range', fn, anchor, 'ValueError exactly when min(u) < 0 or max(u) > 1, and no normal exit in that case', construct='range test')
 
 
 def d3(ctx, rep):
